@@ -17,7 +17,7 @@ INFO = {
 }
 
 PATTERNS = ['/x', '/x/', '/x/<a>', '/<a>', '/<a>/<b?>', '/z/<p*>', '/', '/y/<q+>/']
-METHODS = [None, None, ['GET'], ['POST'], ['GET', 'POST']]
+METHODS = [None, None, ['GET'], ['POST'], ['GET', 'POST'], ['get'], ['Post', 'get']]
 BEH = ['answer', 'answer', 'raise403', 'nb403', 'nbret404', 'boom']
 PATHS = ['/x', '/x/', '/x/1', '/z', '/', '/x/a/b', '/y/1/2/', '/p/x', '/p/x/1', '/q/x/', '/q/', '/p']
 REQM = ['GET', 'POST', 'DELETE']     # DELETE is admitted by no method-restricted route of the catalogue
